@@ -42,7 +42,7 @@ func VInv(s *Set[int]) {
 
 func VHSetStep() {
 	s, pre := VGSet()
-	sets.VSetStep(s, pre, true, func() { VInv(s) })
+	sets.VSetStep(s, pre, true, "LinkedHashSet", func() { VInv(s) })
 }
 
 func VHIter() {
